@@ -16,6 +16,7 @@ who-may-write / who-may-call tables and the panic inventory attribute their code
 semantics; it only changes the shape the rules look at.  Recursive helpers and helpers above a size bound are left
 alone (the rules then see an opaque local call, as before)."""
 import copy
+import re
 import json
 import os
 
@@ -314,6 +315,197 @@ def expand_combinators(prog, d):
     return changed
 
 
+def _subst_const_params(gb, cmap):
+    """replace operands that are a const generic parameter by its value, and the parameter inside type strings"""
+    pat = re.compile(r"\b(%s)\b" % "|".join(re.escape(k) for k in cmap))
+
+    def fix_op(o):
+        if isinstance(o, dict) and o.get("k") == "const" and "bits" not in o and o.get("dbg") in cmap:
+            v = cmap[o["dbg"]]
+            o.update({"bits": str(v), "size": 8, "dbg": "%d_%s" % (v, o.get("ty", "usize"))})
+
+    def walk(x):
+        if isinstance(x, dict):
+            fix_op(x)
+            for k, v in list(x.items()):
+                if k == "args" and isinstance(v, list) and all(isinstance(a, str) for a in v):
+                    x[k] = [pat.sub(lambda m: str(cmap[m.group(1)]), a) if ";" in a else a for a in v]
+                elif k == "n" and isinstance(v, str) and v.strip() in cmap:
+                    x[k] = "%d_usize" % cmap[v.strip()]
+                else:
+                    walk(v)
+        elif isinstance(x, list):
+            for y in x:
+                walk(y)
+    for b in gb:
+        walk(b)
+
+
+CONSUMERS = ("for_each", "try_for_each", "fold", "try_fold")
+
+
+def expand_consumers(prog, d):
+    """rewrites `it.for_each(f)`, `it.try_for_each(f)`, `it.fold(init, f)`, `it.try_fold(init, f)` with a closure or fn
+    item f into the loop they stand for:
+
+        acc = init; loop { match it.next() { None => break, Some(v) => acc = f(acc, v) [?] } }
+
+    with a direct call of f (which the inliner then splices in), so that rules see the same thing as for a `for`
+    loop.  returns True when something changed."""
+    blocks, locs = d["blocks"], d["locals"]
+    changed = False
+    for bi in range(len(blocks)):
+        b = blocks[bi]
+        if b["cleanup"] or b.get("consumer_expanded"):
+            continue
+        t = b["term"]
+        if t["k"] != "call" or t["target"] < 0 or t["dest"]["proj"]:
+            continue
+        c = _callee(t)
+        last = c.rsplit("::", 1)[-1]
+        if last not in CONSUMERS or "Iterator" not in c:
+            continue
+        want_args = 2 if last in ("for_each", "try_for_each") else 3
+        if len(t["args"]) != want_args:
+            continue
+        it_op, fop = t["args"][0], t["args"][-1]
+        init_op = t["args"][1] if want_args == 3 else None
+        if it_op.get("k") not in ("copy", "move"):
+            continue
+        fdef = _closure_def(blocks, fop)
+        if fdef is None or (fdef[0] == "closure" and fdef[1] not in prog.fns) or (fdef[0] == "fn" and fdef[1] not in prog.fns):
+            continue
+        line = t.get("span", {}).get("l0", 0)
+        span = t.get("span", {"file": "", "l0": line, "l1": line, "exp": False})
+        dest, target = t["dest"], t["target"]
+        is_try = last.startswith("try_")
+        has_acc = last in ("fold", "try_fold")
+        dest_ty = locs[dest["local"]]["ty"] if dest["local"] < len(locs) else "?"
+        if is_try and not (dest_ty.startswith("std::result::Result<") or dest_ty.startswith("std::option::Option<")):
+            continue
+        enum = RESULT if dest_ty.startswith("std::result::Result<") else OPTION
+
+        def new_local(ty, name=""):
+            locs.append({"ty": ty, "name": name})
+            return len(locs) - 1
+
+        def new_block(term=None):
+            blocks.append({"cleanup": False, "stmts": [], "term": term or {"k": "goto", "target": target}, "expanded": "consumer:" + last})
+            return len(blocks) - 1
+
+        def mv(n):
+            return {"k": "move", "place": {"local": n, "proj": []}}
+        it = new_local("?", "iter")
+        b["stmts"].append({"place": {"local": it, "proj": []}, "rv": {"k": "use", "op": it_op}, "line": line})
+        acc = None
+        if has_acc:
+            acc = new_local("?", "acc")
+            b["stmts"].append({"place": {"local": acc, "proj": []}, "rv": {"k": "use", "op": init_op}, "line": line})
+        head, mid, body, exit_b = new_block(), new_block(), new_block(), new_block()
+        b["term"] = {"k": "goto", "target": head}
+        b["consumer_expanded"] = True
+        # head: x = next(&mut it)
+        x = new_local("std::option::Option<?>")
+        if is_try:
+            # try_* take `&mut self`: the operand is already a reference to the iterator
+            ref_op = {"k": "copy", "place": {"local": it, "proj": []}}
+        else:
+            r = new_local("&mut ?")
+            blocks[head]["stmts"].append({"place": {"local": r, "proj": []}, "rv": {"k": "ref", "place": {"local": it, "proj": []}, "mut": True}, "line": line})
+            ref_op = mv(r)
+        # the iterator type decides which next() runs: a local Iterator impl is called directly, anything else is std's
+        ity = ""
+        if it_op["place"]["local"] < len(locs) and not it_op["place"]["proj"]:
+            ity = locs[it_op["place"]["local"]]["ty"].lstrip("&").replace("mut ", "").strip()
+        nxt = "<I as std::iter::Iterator>::next"
+        nxt_local = False
+        head_ty = ity.split("<")[0]
+        for q, g2 in prog.fns.items():
+            if g2.trait and q.endswith("::next") and head_ty and g2.self_ty.split("<")[0] == head_ty:
+                nxt, nxt_local = q, True
+        blocks[head]["term"] = {"k": "call", "callee": {"path": nxt, "resolved": nxt, "is_resolved": True, "local": nxt_local, "crate": "" if nxt_local else "core", "args": [ity] if ity else []},
+                                "args": [ref_op], "dest": {"local": x, "proj": []}, "target": mid, "span": span}
+        dl = new_local("isize")
+        blocks[mid]["stmts"].append({"place": {"local": dl, "proj": []}, "rv": {"k": "discr", "place": {"local": x, "proj": []}}, "line": line})
+        dead = new_block({"k": "unreachable"})
+        blocks[mid]["term"] = {"k": "switch", "discr": mv(dl), "targets": [["0", exit_b], ["1", body]], "otherwise": dead, "span": span}
+        # body: res = f([acc,] v)
+        v = new_local("?", "item")
+        blocks[body]["stmts"].append({"place": {"local": v, "proj": []}, "rv": {"k": "use", "op": {"k": "move", "place": {"local": x, "proj": [
+            {"k": "downcast", "variant": "Some", "vidx": 1}, {"k": "field", "idx": 0, "name": "0", "adt": OPTION, "ty": "?"}]}}}, "line": line})
+        args_ops = ([mv(acc)] if has_acc else []) + [mv(v)]
+        if fdef[0] == "closure":
+            tup = new_local("(?,)")
+            blocks[body]["stmts"].append({"place": {"local": tup, "proj": []}, "rv": {"k": "aggregate", "kind": {"agg": "tuple"}, "ops": args_ops}, "line": line})
+            cargs = [fop, mv(tup)]
+        else:
+            cargs = args_ops
+        res = new_local("?", "step")
+        after = new_block()
+        blocks[body]["term"] = {"k": "call", "callee": {"path": fdef[1], "resolved": fdef[1], "is_resolved": True, "local": True, "crate": "", "args": []},
+                                "args": cargs, "dest": {"local": res, "proj": []}, "target": after, "span": span}
+
+        def agg(en, var, ops):
+            return {"k": "aggregate", "kind": {"agg": "adt", "adt": en, "variant": var, "vidx": VIDX[(en, var)], "fields": ["0"] if ops else []}, "ops": ops}
+        exits = []            # (block that jumps to `target`, class)
+        if not is_try:
+            if has_acc:
+                blocks[after]["stmts"].append({"place": {"local": acc, "proj": []}, "rv": {"k": "use", "op": mv(res)}, "line": line})
+            blocks[after]["term"] = {"k": "goto", "target": head}
+            if has_acc:
+                blocks[exit_b]["stmts"].append({"place": dest, "rv": {"k": "use", "op": mv(acc)}, "line": line})
+            else:
+                blocks[exit_b]["stmts"].append({"place": dest, "rv": {"k": "use", "op": {"k": "const", "ty": "()", "dbg": "()"}}, "line": line})
+        else:
+            # after: br = branch(res); switch: Continue -> [acc = payload] head, Break -> dest = from_residual(..)
+            br = new_local("std::ops::ControlFlow<?, ?>")
+            sw, cont_b, brk_b = new_block(), new_block(), new_block()
+            blocks[after]["term"] = {"k": "call", "callee": {"path": "<R as std::ops::Try>::branch", "resolved": "<std::result::Result<T, E> as std::ops::Try>::branch" if enum == RESULT else "<std::option::Option<T> as std::ops::Try>::branch",
+                                                              "is_resolved": True, "local": False, "crate": "core", "args": []},
+                                     "args": [mv(res)], "dest": {"local": br, "proj": []}, "target": sw, "span": span}
+            dd = new_local("isize")
+            blocks[sw]["stmts"].append({"place": {"local": dd, "proj": []}, "rv": {"k": "discr", "place": {"local": br, "proj": []}}, "line": line})
+            dead2 = new_block({"k": "unreachable"})
+            blocks[sw]["term"] = {"k": "switch", "discr": mv(dd), "targets": [["0", cont_b], ["1", brk_b]], "otherwise": dead2, "span": span}
+            if has_acc:
+                blocks[cont_b]["stmts"].append({"place": {"local": acc, "proj": []}, "rv": {"k": "use", "op": {"k": "move", "place": {"local": br, "proj": [
+                    {"k": "downcast", "variant": "Continue", "vidx": 0}, {"k": "field", "idx": 0, "name": "0", "adt": "std::ops::ControlFlow", "ty": "?"}]}}}, "line": line})
+            blocks[cont_b]["term"] = {"k": "goto", "target": head}
+            resid = new_local("?")
+            blocks[brk_b]["stmts"].append({"place": {"local": resid, "proj": []}, "rv": {"k": "use", "op": {"k": "move", "place": {"local": br, "proj": [
+                {"k": "downcast", "variant": "Break", "vidx": 1}, {"k": "field", "idx": 0, "name": "0", "adt": "std::ops::ControlFlow", "ty": "?"}]}}}, "line": line})
+            fr = "<std::result::Result<T, F> as std::ops::FromResidual<std::result::Result<std::convert::Infallible, E>>>::from_residual" if enum == RESULT else "<std::option::Option<T> as std::ops::FromResidual<std::option::Option<std::convert::Infallible>>>::from_residual"
+            blocks[brk_b]["term"] = {"k": "call", "callee": {"path": fr, "resolved": fr, "is_resolved": True, "local": False, "crate": "core", "args": []},
+                                     "args": [mv(resid)], "dest": dest, "target": target, "span": span}
+            okv = "Ok" if enum == RESULT else "Some"
+            if has_acc:
+                blocks[exit_b]["stmts"].append({"place": dest, "rv": agg(enum, okv, [mv(acc)]), "line": line})
+            else:
+                unit = new_local("()")
+                blocks[exit_b]["stmts"].append({"place": {"local": unit, "proj": []}, "rv": {"k": "use", "op": {"k": "const", "ty": "()", "dbg": "()"}}, "line": line})
+                blocks[exit_b]["stmts"].append({"place": dest, "rv": agg(enum, okv, [mv(unit)]), "line": line})
+            # the break arm gets its own landing block so that a following `?` can be threaded
+            land = new_block()
+            blocks[brk_b]["term"]["target"] = land
+            exits = [(exit_b, "ok"), (land, "err")]
+        chain = _try_chain_impl(blocks, target, dest["local"])
+        if chain is not None and exits:
+            chain_blocks, cont_t, brk_t = chain
+            for last_b, cls in exits:
+                cstart = len(blocks)
+                for k_, n_ in enumerate(chain_blocks):
+                    nb2 = copy.deepcopy(blocks[n_])
+                    if k_ + 1 < len(chain_blocks):
+                        nb2["term"]["target"] = cstart + k_ + 1
+                    else:
+                        nb2["term"] = {"k": "goto", "target": cont_t if cls == "ok" else brk_t}
+                    nb2["threaded"] = cls
+                    blocks.append(nb2)
+                blocks[last_b]["term"] = {"k": "goto", "target": cstart}
+        changed = True
+    return changed
+
+
 def _try_chain_impl(blocks, start, dest_local):
     """[converter calls ->] Try::branch(move v) -> switch on its discriminant, starting at block `start`, fed by the
     local dest_local.  returns (chain block ids, continue target, break target) or None"""
@@ -416,6 +608,16 @@ class Inliner:
             changed = False
             for p in sorted(self.prog.fns):
                 f = self.prog.fns[p]
+                if self.expand and any(b["term"]["k"] == "call" and not b["cleanup"] and _callee(b["term"]).rsplit("::", 1)[-1] in CONSUMERS and "Iterator" in _callee(b["term"]) and not b.get("consumer_expanded") for b in f.blocks):
+                    d2 = dict(f.d)
+                    d2["blocks"] = copy.deepcopy(f.blocks)
+                    d2["locals"] = list(f.locals)
+                    if expand_consumers(self.prog, d2):
+                        f = Fn(d2, f.crate)
+                        f.program = self.prog
+                        self.prog.fns[p] = f
+                        self.expanded += 1
+                        changed = True
                 if self.expand and any(b["term"]["k"] == "call" and not b["cleanup"] and any(_callee(b["term"]).endswith(k) for k in COMBINATORS) for b in f.blocks):
                     d2 = dict(f.d)
                     d2["blocks"] = copy.deepcopy(f.blocks)
@@ -647,6 +849,17 @@ class Inliner:
                 return dest["local"]
             return loff + n
         gb = copy.deepcopy(g.blocks)
+        # const generic parameters of the helper take the values of this call (`field::<8>(..)`: N = 8)
+        gen = g.d.get("generics") or []
+        gargs = call["callee"].get("args") or []
+        cmap_ = {}
+        if gen and len(gen) == len(gargs):
+            for name, val in zip(gen, gargs):
+                m = re.match(r"^(\d+)(?:_[iu](?:8|16|32|64|128|size))?$", str(val))
+                if m and re.match(r"^[A-Z][A-Z0-9_]*$", name):
+                    cmap_[name] = int(m.group(1))
+        if cmap_:
+            _subst_const_params(gb, cmap_)
         # normalise: an assignment to the return place ends its block
         i = 0
         while i < len(gb):
